@@ -191,4 +191,15 @@ CHECKS = {
              'activity after the end, stop_data processed last, terminal state (no restart, no new block, no connect, no '
              'storage change, not ready).',
         note='Which blocks count as started is taken from the instrumentation (start() returned).'),
+    'C07': dict(
+        level='exploration', design_ref='DESIGN.md 4/C07',
+        technique=PBT + '; independent calendar predicate in integer microseconds on a virtual wall clock with modelled clock-read, wake-up and blocking-work latency; exhaustive sub-millisecond start grid (thorough)',
+        text='TimeDate and TimeSpan blocks (local UTC+offset and UTC schedulers, 1-5 blocks) with generated times, dates, '
+             'weekdays and spans are started at instants placed microseconds to hours before a boundary (Dec 31, Feb 28/29, '
+             'mid-year), then driven through sleeps of up to a day, waits until just after a boundary, reconfig events placed '
+             '0-3 ms before/after a boundary of the same or another block and forward clock jumps of 30 s - 1 h (also placed '
+             'in the last hour before midnight); every clock read, wake-up and (re)configuration costs a generated latency. '
+             'Outputs are compared with the calendar predicate after every step, except within 60 ms of a boundary and '
+             'during the hour after a jump; a jump must never stop the simulation.',
+        note='Fixed-offset local time zone; no real-time scheduling jitter beyond the modelled latencies.'),
 }
